@@ -228,3 +228,112 @@ package server
 //@     before call (*server.Server).checkAuthz args _, _, st, m, ms : assert modsCalled && modsErr == nil && st == req.GetStoreId() && m == "Write" && ms == mods
 //@     after call (*server.Server).checkAuthz returning e : authzCalled = true ; authzErr = e
 
+
+// ------------------------------------------------------------------ C32: AuthZEN requests are mapped to the native request and delegated
+// the mapped Check: store, model, user = subject type:id, relation = action name, object = resource type:id, and the
+// context merged from exactly this subject, this resource, this action and the request context (in these roles)
+//@ func buildCheckRequest(storeID, authorizationModelID, subject, resource, action, reqContext) (res, err)
+//@   property C32
+//@   option nosafety
+//@   ensures @mapped err == nil ==> res != nil && res.StoreId == storeID && res.AuthorizationModelId == authorizationModelID && res.TupleKey != nil && res.TupleKey.User == subject.GetType() + ":" + subject.GetId() && res.TupleKey.Relation == action.GetName() && res.TupleKey.Object == resource.GetType() + ":" + resource.GetId() && merged && mergeErr == nil && res.Context == mergedCtx
+//@   ensures @failClosed err != nil ==> res == nil
+//@   monitor roles
+//@     ghost merged = false
+//@     ghost mergedCtx *structpb.Struct = nil
+//@     ghost mergeErr error = nil
+//@     before call server.mergePropertiesToContext args rc, s, r, a : assert rc == reqContext && typeIs(s, "*authzenv1.Subject") && as(s, "*authzenv1.Subject") == subject && typeIs(r, "*authzenv1.Resource") && as(r, "*authzenv1.Resource") == resource && a == action
+//@     after call server.mergePropertiesToContext returning c, e : merged = true ; mergedCtx = c ; mergeErr = e
+
+// a single evaluation is the native Check of the mapped request, and its decision is that Check's
+//@ func (*Server).Evaluation(s, ctx, req) (res, err)
+//@   property C32
+//@   option nosafety
+//@   option stable req
+//@   option defer_neutral
+//@   ensures @decision res != nil ==> err == nil && checked && checkErr == nil && res.Decision == checkRes.GetAllowed()
+//@   monitor delegate
+//@     ghost hdrModel string = ""
+//@     ghost built *openfgav1.CheckRequest = nil
+//@     ghost buildErr error = nil
+//@     ghost checked = false
+//@     ghost checkRes *openfgav1.CheckResponse = nil
+//@     ghost checkErr error = nil
+//@     after call server.getAuthorizationModelIDFromHeader returning m : hdrModel = m
+//@     before call server.buildCheckRequest args st, m, sub, rs, act, c : assert st == req.GetStoreId() && m == hdrModel && sub == req.GetSubject() && rs == req.GetResource() && act == req.GetAction() && c == req.GetContext()
+//@     after call server.buildCheckRequest returning r, e : built = r ; buildErr = e
+//@     before call (*server.Server).Check args _, _, r : assert buildErr == nil && r == built
+//@     after call (*server.Server).Check returning r, e : checked = true ; checkRes = r ; checkErr = e
+
+// batched evaluations: every item is mapped with the request's store and the header's model from its own (or the
+// top-level) subject, resource, action and context, and the BatchCheck item carries exactly the mapped tuple and the
+// mapped (merged) context under the item's index as correlation id
+//@ func (*Server).evaluateAll(s, ctx, req, authorizationModelID) (res, err)
+//@   property C32
+//@   option nosafety
+//@   option stable req
+//@   monitor items
+//@     ghost lastReq *openfgav1.CheckRequest = nil
+//@     ghost lastErr error = nil
+//@     ghost resolved = false
+//@     ghost rSub *authzenv1.Subject = nil
+//@     ghost rRes *authzenv1.Resource = nil
+//@     ghost rAct *authzenv1.Action = nil
+//@     ghost rCtx *structpb.Struct = nil
+//@     after call server.resolveEvalFields returning a, b, c, d : resolved = true ; rSub = a ; rRes = b ; rAct = c ; rCtx = d
+//@     before call server.buildCheckRequest args st, m, sub, rs, act, c : assert st == req.GetStoreId() && m == authorizationModelID && resolved && sub == rSub && rs == rRes && act == rAct && c == rCtx
+//@     after call server.buildCheckRequest returning r, e : lastReq = r ; lastErr = e
+//@     before call builtin.append args sl, add : assert lastErr == nil && len(add) == 1 && add[0] != nil && add[0].TupleKey == lastReq.GetTupleKey() && add[0].Context == lastReq.GetContext() && add[0].CorrelationId == itoa(i)
+
+// per-item defaults: an item's own subject / resource / action / context wins, otherwise the request-level one
+//@ func resolveEvalFields(eval, topSubject, topResource, topAction, topContext) (sub, res, act, c)
+//@   property C32
+//@   option nosafety
+//@   modifies nothing
+//@   ensures @own sub == (eval.GetSubject() != nil ? eval.GetSubject() : topSubject) && res == (eval.GetResource() != nil ? eval.GetResource() : topResource) && act == (eval.GetAction() != nil ? eval.GetAction() : topAction) && c == (eval.GetContext() != nil ? eval.GetContext() : topContext)
+
+// the searches delegate to StreamedListObjects / ListUsers with the mapped request
+//@ func (*Server).ResourceSearch(s, ctx, req) (res, err)
+//@   property C32
+//@   option nosafety
+//@   option stable req
+//@   monitor delegate
+//@     ghost hdrModel string = ""
+//@     ghost mergedCtx *structpb.Struct = nil
+//@     ghost mergeErr error = nil
+//@     after call server.getAuthorizationModelIDFromHeader returning m : hdrModel = m
+//@     before call server.mergePropertiesToContext args rc, sb, rs, a : assert rc == req.GetContext() && typeIs(sb, "*authzenv1.Subject") && as(sb, "*authzenv1.Subject") == req.GetSubject() && typeIs(rs, "*authzenv1.ResourceFilter") && as(rs, "*authzenv1.ResourceFilter") == req.GetResource() && a == req.GetAction()
+//@     after call server.mergePropertiesToContext returning c, e : mergedCtx = c ; mergeErr = e
+//@     before call (*server.Server).StreamedListObjects args _, lr, _ : assert mergeErr == nil && lr != nil && lr.StoreId == req.GetStoreId() && lr.AuthorizationModelId == hdrModel && lr.User == req.GetSubject().GetType() + ":" + req.GetSubject().GetId() && lr.Relation == req.GetAction().GetName() && lr.Type == req.GetResource().GetType() && lr.Context == mergedCtx
+
+//@ func (*Server).SubjectSearch(s, ctx, req) (res, err)
+//@   property C32
+//@   option nosafety
+//@   option stable req
+//@   monitor delegate
+//@     ghost hdrModel string = ""
+//@     ghost mergedCtx *structpb.Struct = nil
+//@     ghost mergeErr error = nil
+//@     after call server.getAuthorizationModelIDFromHeader returning m : hdrModel = m
+//@     before call server.mergePropertiesToContext args rc, sb, rs, a : assert rc == req.GetContext() && typeIs(sb, "*authzenv1.SubjectFilter") && as(sb, "*authzenv1.SubjectFilter") == req.GetSubject() && typeIs(rs, "*authzenv1.Resource") && as(rs, "*authzenv1.Resource") == req.GetResource() && a == req.GetAction()
+//@     after call server.mergePropertiesToContext returning c, e : mergedCtx = c ; mergeErr = e
+//@     before call (*server.Server).ListUsers args _, _, lr : assert mergeErr == nil && lr != nil && lr.StoreId == req.GetStoreId() && lr.AuthorizationModelId == hdrModel && lr.Object != nil && lr.Object.Type == req.GetResource().GetType() && lr.Object.Id == req.GetResource().GetId() && lr.Relation == req.GetAction().GetName() && lr.Context == mergedCtx && len(lr.UserFilters) == 1 && lr.UserFilters[0] != nil && lr.UserFilters[0].Type == req.GetSubject().GetType()
+
+// the short-circuit variants evaluate each item as the native Check of the mapped request
+//@ func (*Server).evaluateWithShortCircuit(s, ctx, req, authorizationModelID, semantic) (res)
+//@   property C32
+//@   option nosafety
+//@   option stable req
+//@   monitor items
+//@     ghost lastReq *openfgav1.CheckRequest = nil
+//@     ghost lastErr error = nil
+//@     ghost resolved = false
+//@     ghost rSub *authzenv1.Subject = nil
+//@     ghost rRes *authzenv1.Resource = nil
+//@     ghost rAct *authzenv1.Action = nil
+//@     ghost rCtx *structpb.Struct = nil
+//@     ghost checkRes *openfgav1.CheckResponse = nil
+//@     ghost checkErr error = nil
+//@     after call server.resolveEvalFields returning a, b, c, d : resolved = true ; rSub = a ; rRes = b ; rAct = c ; rCtx = d
+//@     before call server.buildCheckRequest args st, m, sub, rs, act, c : assert st == req.GetStoreId() && m == authorizationModelID && resolved && sub == rSub && rs == rRes && act == rAct && c == rCtx
+//@     after call server.buildCheckRequest returning r, e : lastReq = r ; lastErr = e
+//@     before call (*server.Server).Check args _, _, r : assert lastErr == nil && r == lastReq
